@@ -156,6 +156,7 @@ fn cursor_case<W: Num>(run: &mut Run, rng: &mut Rng) {
     // We drive a Cursor<W, Vec<W>> and mirror mutable operations; for the other buffer kinds we
     // rebuild the cursor from the reference state at every step (their behaviour must coincide).
     let mut cur: Cursor<W, Vec<W>> = Cursor::new_at_pos(init.clone(), pos0).unwrap();
+    let mut clone_via: crate::report::CloneVia<Cursor<W, Vec<W>>> = crate::report::CloneVia::new();
     let mut rev: Option<Reverse<Cursor<W, Vec<W>>>> = None;
 
     macro_rules! fail {
@@ -244,12 +245,21 @@ fn cursor_case<W: Num>(run: &mut Run, rng: &mut Rng) {
                 // bulk write: must behave exactly like writing word by word and stopping at the
                 // first error (also for iterators whose size_hint is only a lower bound)
                 let xs: Vec<W> = (0..rng.usize_in(0, 6)).map(|_| w::<W>(rng)).collect();
-                let loose = rng.bool();
+                // size hints: exact / upper bound only (filter) / no upper bound at all (from_fn)
+                let loose = rng.below(3);
+                let mut k = 0usize;
+                let unbounded = std::iter::from_fn(|| {
+                    let x = xs.get(k).copied();
+                    k += 1;
+                    x
+                });
                 let r = match (&mut rev, loose) {
-                    (Some(r), true) => r.extend_from_iter(xs.iter().copied().filter(|_| true)),
-                    (Some(r), false) => r.extend_from_iter(xs.iter().copied()),
-                    (None, true) => cur.extend_from_iter(xs.iter().copied().filter(|_| true)),
-                    (None, false) => cur.extend_from_iter(xs.iter().copied()),
+                    (Some(r), 1) => r.extend_from_iter(xs.iter().copied().filter(|_| true)),
+                    (Some(r), 0) => r.extend_from_iter(xs.iter().copied()),
+                    (Some(r), _) => r.extend_from_iter(unbounded),
+                    (None, 1) => cur.extend_from_iter(xs.iter().copied().filter(|_| true)),
+                    (None, 0) => cur.extend_from_iter(xs.iter().copied()),
+                    (None, _) => cur.extend_from_iter(unbounded),
                 };
                 let mut expect_ok = true;
                 for &x in &xs {
@@ -425,6 +435,13 @@ fn cursor_case<W: Num>(run: &mut Run, rng: &mut Rng) {
                         fail!("C17/views", "as_mut_view() has pos {}", mv.pos());
                     }
                     log.push("views".into());
+                    // copies: clone(), or clone_from() onto a stale copy from earlier in the history;
+                    // the copy then replaces the cursor (reads and writes continue on it)
+                    let c3 = clone_via.clone_of(run, rng, &cur);
+                    if c3.pos() != reference.pos || c3.buf() != &reference.buf {
+                        fail!("C17/views", "a clone has (buf,pos) = ({:?},{}), the cursor ({:?},{})", fmt(c3.buf()), c3.pos(), fmt(&reference.buf), reference.pos);
+                    }
+                    cur = c3;
                 }
             }
             _ => {
